@@ -201,6 +201,62 @@ static void c08_run_all(void) {
   vh_count_dyn("slots_hit_by_this_shard", (uint64_t)hit);
 }
 
+/* buffers whose own length exceeds 2^32: the head (and payload) sit at the start of a >8 GiB region; the result must
+ * be what the same bytes give in an exactly-sized buffer */
+static void c08_huge_case(const uint8_t* item, size_t n, size_t claimed) {
+  struct vh_buf d = {0};
+  vb_u8(&d, 'H'); vb_be(&d, claimed, 8); vb_put(&d, item, n);
+  if (!vh_case(d.p, d.n)) { vb_free(&d); return; }
+  size_t rl;
+  uint8_t* reg = vh_huge_region(&rl);
+  if (!reg || claimed > rl) { VH_COUNT("huge.skipped_no_address_space", 1); vb_free(&d); return; }
+  memcpy(reg, item, n);
+  reg[n] = 0xa5;
+  struct rtoken t = ref_tokenize(reg, n); /* what the bytes at the start denote */
+  int ctx;
+  rec_expected_ctx = &ctx;
+  rec_reset();
+  struct cbor_decoder_result res = cbor_stream_decode(reg, claimed, &rec_table, &ctx);
+  const char* why = "";
+  if (t.status == RT_FINISHED) {
+    if (res.status != CBOR_DECODER_FINISHED) vh_violation("status-mismatch", "a complete %zu-byte item at the start of a %zu-byte buffer gave %s (required=%zu)", t.read, claimed, st_name(res.status), res.required);
+    else if (rec_n != 1 || !event_matches(&rec_ev[0], &t, reg, &why)) vh_violation("callback-mismatch", "%zu-byte buffer: %d callbacks; %s", claimed, rec_n, why);
+    else if (res.read != t.read) vh_violation("read-mismatch", "%zu-byte buffer: read=%zu, the item occupies %zu", claimed, res.read, t.read);
+    else slot_hits[t.slot]++;
+  } else if (t.status == RT_NEDATA) {
+    /* only the string payload can be missing here: the claimed buffer is huge, so the item is in fact complete iff full <= claimed */
+    if (t.full <= (unsigned __int128)claimed) { if (res.status != CBOR_DECODER_FINISHED) vh_violation("status-mismatch", "string of %llu bytes fits the %zu-byte buffer but gave %s", (unsigned long long)t.arg, claimed, st_name(res.status)); }
+    else if (res.status != CBOR_DECODER_NEDATA || res.required <= claimed) vh_violation("required-not-greater", "%zu-byte buffer, pending item longer: status %s required %zu", claimed, st_name(res.status), res.required);
+  } else if (res.status != CBOR_DECODER_ERROR) vh_violation("status-mismatch", "reserved byte in a huge buffer gave %s", st_name(res.status));
+  VH_COUNT("huge.buffer_cases", 1);
+  vh_nontrivial(vh_hash(d.p, d.n));
+  vb_free(&d);
+}
+static void c08_huge_all(void) {
+  static const size_t sizes[] = {((size_t)1 << 32) - 1, (size_t)1 << 32, ((size_t)1 << 32) + 1, ((size_t)1 << 32) + 2, ((size_t)1 << 32) + 3, ((size_t)1 << 32) + 4, ((size_t)1 << 32) + 5, ((size_t)1 << 32) + 8,
+                                 ((size_t)1 << 32) + 9, ((size_t)1 << 32) + 12, ((size_t)3 << 31) + 7, ((size_t)1 << 33), ((size_t)1 << 33) + 3, ((size_t)1 << 33) + 65536};
+  struct vh_buf b = {0};
+  for (unsigned ib = 0; ib < 256; ib++) {
+    if ((int)(ib % (unsigned)O.nshards) != O.shard) continue;
+    unsigned mt = ib >> 5, ai = ib & 31;
+    size_t argn = ai < 24 ? 0 : ai == 24 ? 1 : ai == 25 ? 2 : ai == 26 ? 4 : ai == 27 ? 8 : 0;
+    static const uint64_t args[] = {0, 5, 200, 70000, 0x100000000ull, 0x100000005ull, 0xffffffffffffffffull};
+    for (size_t ax = 0; ax < sizeof args / sizeof args[0]; ax++) {
+      uint64_t arg = argn ? args[ax] : ai;
+      if (argn && argn < 8 && (arg >> (8 * argn))) continue;
+      if (!argn && ax) break;
+      vb_reset(&b);
+      vb_u8(&b, (uint8_t)ib); vb_be(&b, arg, (int)argn);
+      if ((mt == 2 || mt == 3) && ai <= 27 && arg <= 70000) for (uint64_t i = 0; i < arg; i++) vb_u8(&b, (uint8_t)(i * 7 + 1));
+      for (size_t si = 0; si < sizeof sizes / sizeof sizes[0]; si++) c08_huge_case(b.p, b.n, sizes[si]);
+      /* buffer sizes just around 2^32 + the item's own length */
+      c08_huge_case(b.p, b.n, ((size_t)1 << 32) + b.n);
+      if (b.n > 1) c08_huge_case(b.p, b.n, ((size_t)1 << 32) + b.n - 1);
+    }
+  }
+  vb_free(&b);
+}
+
 /* ------------------------------------------------------------------- C09 */
 struct ev9 { int slot; uint64_t arg; uint64_t payload_hash; uint64_t len; };
 struct evlist { struct ev9* e; size_t n, cap; };
@@ -571,7 +627,11 @@ static void setup(void) {
 }
 static void stream_run(void) {
   setup();
-  if (P == 8) {
+  if (P == 8 && !strcmp(O.stage, "huge")) {
+    c08_huge_all();
+    vh_set_rule("each case is an item head (and payload) at the start of a region larger than 4 GiB, decoded with a claimed buffer length of 2^32-1 .. 2^33+65536; the outcome must equal that of the same bytes in an exactly-sized buffer; distinct by hash of (claimed length, bytes)");
+    vh_set_exhaustive(false);
+  } else if (P == 8) {
     c08_run_all();
     vh_set_rule("each case is one (initial byte, argument bytes, buffer length) triple in an exactly-sized heap block, decoded with a 24-slot recording callback table and compared with a one-head reference tokeniser; distinct by 64-bit hash of the buffer (1- and 2-byte arguments exhaustive); every case is non-trivial because status, read, required, callback slot/argument/pointer, allocator silence, statelessness and independence from trailing bytes are all judged");
     vh_set_exhaustive(false);
@@ -587,6 +647,7 @@ static void stream_run(void) {
 }
 static void stream_exec(const uint8_t* d, size_t n) {
   setup();
+  if (P == 8 && n >= 9 && d[0] == 'H' && !strcmp(O.stage, "huge")) { size_t c = 0; for (int i = 0; i < 8; i++) c = c << 8 | d[1 + i]; c08_huge_case(d + 9, n - 9, c); return; }
   if (P == 8) { c08_case(d, n); return; }
   if (P == 10) { if (n != 9) { printf("bad C10 descriptor\n"); return; } uint64_t v = 0; for (int i = 0; i < 8; i++) v = v << 8 | d[1 + i]; c10_case(d[0], v); return; }
   if (n < 2) return;
